@@ -19,15 +19,20 @@ def events(raw):
 def wd(v):
     v = int(v); return (1 if v & PHASE else 0, v & NEST)
 
-def project_memb(raw, nthreads):
+def project_memb(raw, nthreads, dyn_initial=None):
     """implementation trace -> action lines of the model (memb flavor with sys_membarrier). Returns (lines, notes)."""
     out = ['T ' + ' '.join(str(i) for i in range(nthreads))]
     insync = {}        # thread -> state of its synchronize_rcu: None | 'called' | 'leader' | 'flipped'
+    regop = {}
+    if dyn_initial is not None: out += ['G %s' % t for t in dyn_initial]       # threads registered (in a quiet section) before the schedule starts
     for p in events(raw):
         t, k = p[0], p[1]
         loc = p[2] if len(p) > 2 else ''
         if k == 'call' and p[2] == 'sync': insync[t] = 'called'
         elif k == 'ret' and p[2] == 'sync': insync[t] = None
+        elif dyn_initial is not None and k == 'call' and p[2] in ('register', 'unregister'): regop[t] = p[2]
+        elif dyn_initial is not None and k == 'ret' and p[2] in ('register', 'unregister'): regop[t] = None
+        elif dyn_initial is not None and k == 'unlock' and loc == 'reg_lock+0' and regop.get(t): out.append(('G %s' if regop[t] == 'register' else 'U %s') % t)
         elif k == 'load' and loc == 'gp.ctr+0' and not insync.get(t): out.append('L %s %d' % (t, wd(p[5])[0]))
         elif k == 'store' and loc == 'rd%s+0' % t: out.append('S %s %d %d' % ((t,) + wd(p[3][2:])))
         elif k == 'flush' and re.match(r'rd\d+\+0$', loc): out.append('F %s %d %d' % ((t,) + wd(p[3][2:])))
